@@ -665,8 +665,15 @@ struct Env {
       }
       // the sweeper must start only when the others are done: chain it behind the last other thread
       // (with a release probe the single holder outlives the retirer and must be alone during the probe: the sweeper waits for the holder)
-      if (sweep && ws.size() > 1)
+      // Native runtime: there is no probe and the holder does not wait for the retirer, so the sweeper stays behind the retirer (two
+      // threads unlinking the same cell would retire a node twice - a harness error the native ASan slice reported as use-after-free).
+      if (sweep && ws.size() > 1) {
+#ifndef XV_NATIVE
         specs[ws.size() - 1].start_after = nholders == 1 ? 0 : (int)ws.size() - 2;
+#else
+        specs[ws.size() - 1].start_after = (int)ws.size() - 2;
+#endif
+      }
       xrt::run(ctx.runcfg((uint64_t)gen), specs.data(), (int)specs.size());
       for (auto& w : ws) {
         throws += w.throws;
